@@ -1,4 +1,4 @@
-HOOK_COMMITS = ["99a02c9", "f8d9bb5", "b7b5f82", "4931ed9"]
+HOOK_COMMITS = ["99a02c9", "f8d9bb5", "b7b5f82", "4931ed9", "63c8e47"]
 _ALL = ['C%02d' % i for i in range(1, 21)]
 META = {
  'C01': dict(technique='runtime monitoring: residual-bound oracle + ASan/UBSan over generated ?gssv executions',
